@@ -22,7 +22,7 @@ ASSUMPTIONS = [
     'the alignment rebuild goes through the flat numbers (the nested view is itself under test)',
     'custom decision points are not generated here (their DNA value is an opaque user string)',
 ]
-BUDGET = {'quick': 640, 'thorough': 30000}
+BUDGET = {'quick': 400, 'thorough': 30000}
 
 KEY_TYPES = ['id', 'name_or_id', 'dna_spec']
 VALUE_TYPES = ['value', 'dna', 'choice', 'literal', 'choice_and_literal']
